@@ -44,6 +44,10 @@ func (g *c19Gen) scalar() *c19Val {
 func (g *c19Gen) subject(depth int) *c19Val {
 	k := g.n(0, 9, "subjkind")
 	switch {
+	case k == 3 && depth >= 2 && g.n(0, 2, "unsetsubj") == 0:
+		// a variable that was never assigned: == is false against every literal (3.6)
+		g.labels["unset-subject"] = true
+		return &c19Val{kind: "unset", lit: ast.Id("c19unset")}
 	case k <= 3 || depth <= 0:
 		return g.scalar()
 	case k == 9:
@@ -90,7 +94,7 @@ func (g *c19Gen) fresh() string {
 func (g *c19Gen) pattern(v *c19Val, hit bool, depth int, names *[]string) *ast.Node {
 	if hit {
 		switch {
-		case g.n(0, 2, "ident") == 0:
+		case v.kind == "unset", g.n(0, 2, "ident") == 0:
 			nm := g.fresh()
 			*names = append(*names, nm)
 			return ast.Id(nm)
@@ -162,6 +166,8 @@ func (g *c19Gen) pattern(v *c19Val, hit bool, depth int, names *[]string) *ast.N
 			return ast.Num("1")
 		}
 		return ast.Null()
+	case v.kind == "unset":
+		return rapid.SampledFrom([]*ast.Node{ast.Num("0"), ast.False(), ast.Str(""), ast.Str("abc"), ast.Null(), ast.Num("77"), ast.Arr()}).Draw(g.t, "unsetmiss").Clone()
 	default:
 		if g.n(0, 3, "arrvsscalar") == 0 {
 			g.labels["array-pattern-vs-scalar"] = true
@@ -312,8 +318,9 @@ func genC19(t *rapid.T) (*DCase, map[string]bool) {
 	for k := 0; k < nm; k++ {
 		v := g.subject(3)
 		var subj *ast.Node
-		switch g.n(0, 2, "subjform") {
-		case 0:
+		switch sf := g.n(0, 2, "subjform"); {
+		case sf == 0 || v.kind == "unset":
+			// (an unset subject is named directly: it cannot be stored first)
 			subj = v.lit.Clone()
 		default:
 			sv := fmt.Sprintf("s%d", k)
@@ -321,7 +328,11 @@ func genC19(t *rapid.T) (*DCase, map[string]bool) {
 			subj = ast.Id(sv)
 		}
 		r := fmt.Sprintf("r%d", k)
-		switch g.n(0, 5, "use") {
+		use := g.n(0, 5, "use")
+		if v.kind == "unset" && use == 3 {
+			use = 1
+		}
+		switch use {
 		case 0: // statement
 			stmts = append(stmts, ast.ExprS(g.match(subj, v, "rule")))
 			g.labels["match-as-statement"] = true
